@@ -122,7 +122,21 @@ FINDINGS = {
                "def g1():\n    return {sa: ib for c1 in la}\nv1 = g1()"]),
     "C19-function-local-bound-later": dict(
         flags=["fn_late_local"],
-        block=["def g1():\n    def g2():\n        return v2\n    v2 = 5\n    return g2()\nv1 = g1()"]),
+        block=["def g1():\n    def g2():\n        return v2\n    v2 = 5\n    return g2()\nv1 = g1()",
+               # the binding that makes the name local may sit in any statement of the function body
+               "def g1():\n    def g2():\n        return v2\n    try:\n        v3 = la[99]\n    except Exception:\n        v2 = 7\n    return g2()\nv1 = g1()",
+               "def g1():\n    def g2():\n        return v2\n    for v2 in la:\n        pass\n    return g2()\nv1 = g1()",
+               "def g1():\n    def g2():\n        return os.sep\n    import os\n    return g2()\nv1 = g1()",
+               "def g1():\n    def g2():\n        return str(v2)\n    try:\n        raise ValueError(1)\n    except ValueError as v2:\n        return g2()\nv1 = g1()",
+               "def g1():\n    v3 = []\n    for i1 in la:\n        if v3:\n            v3.append(v2)\n        try:\n            v3.append(i1 // 0)\n"
+               "        except ZeroDivisionError:\n            v2 = i1\n            v3.append(0)\n    return v3\nv1 = g1()",
+               "def g1():\n    def g2():\n        return v2 + len(os.sep)\n    try:\n        raise ValueError(1)\n    except ValueError:\n"
+               "        for v2 in la:\n            pass\n        import os\n    return g2()\nv1 = g1()",
+               "def g1():\n    def g2():\n        return g3()\n    def g3():\n        return 4\n    return g2()\nv1 = g1()",
+               "def g1():\n    def g2():\n        return v2 + v3[0]\n    v2, *v3 = la\n    return g2()\nv1 = g1()",
+               "def g1():\n    def g2():\n        return v2\n    if ia > 10 ** 9:\n        pass\n    else:\n        v2 = 3\n    return g2()\nv1 = g1()",
+               "def g1():\n    def g2():\n        return v2\n    try:\n        pass\n    finally:\n        v2 = 9\n    return g2()\nv1 = g1()",
+               "def g1():\n    def g2():\n        return v2\n    while True:\n        v2 = 1\n        break\n    return g2()\nv1 = g1()"]),
     "C19-comprehension-var-leaks": dict(
         flags=["comp_var_reuse"],
         block=["def g1():\n    v3 = [ia for ia in la]\n    return ia\nv1 = g1()",
@@ -200,6 +214,28 @@ def regen_checks(src):
         problems.append(("ExpressionGenerator", "regen-raised:" + type(e).__name__, "%s: %s" % (type(e).__name__, e)))
     else:
         cmp("ExpressionGenerator", text, None, "eval")
+    # (a') the same expression again after its "sibling" was re-emitted in this process: the expression the hand-written
+    # generator's text for src actually denotes (conditional expressions, lambdas and operands written without the
+    # parentheses they need).  Both must come out right in this order too: re-emission has no memory.
+    try:
+        from mako import _ast_util
+
+        g = _ast_util.SourceGenerator(" " * 4)
+        g.visit(pyparser.parse(src, "exec", **kw))
+        legacy = "".join(g.result)
+        sib = ast.parse(legacy, mode="eval")
+    except Exception:  # noqa: BLE001 - no sibling (the hand-written generator cannot print src, or prints invalid text)
+        sib = None
+    if sib is not None and _dump(sib) != want:
+        sib_src = ast.unparse(sib)
+        try:
+            t1 = pyparser.ExpressionGenerator(pyparser.parse(sib_src, "exec", **kw)).value()
+            t2 = pyparser.ExpressionGenerator(pyparser.parse(src, "exec", **kw)).value()
+        except Exception as e:  # noqa: BLE001
+            problems.append(("ExpressionGenerator-after-sibling", "regen-raised:" + type(e).__name__, "%s: %s" % (type(e).__name__, e)))
+        else:
+            cmp("ExpressionGenerator-sibling %r" % sib_src, t1, sib_src, "eval")
+            cmp("ExpressionGenerator-after-sibling %r" % sib_src, t2, None, "eval")
     # (b) FunctionDecl.get_argument_expressions: positional and keyword-only defaults
     decl = "def f(a=%s, b=1, *r, k=%s, j=2, **w):pass" % (src, src)
     try:
@@ -937,6 +973,17 @@ class MarginGen:
             kind, last = out[-1]
             out[-1] = (kind, last + ")")
             return out
+        if self.chance(60):
+            # a triple-quoted f-string over several lines with a nested f-string that starts on a later line: every
+            # line after the first is string content whatever tokens begin and end inside it
+            q = self.pick(['"' * 3, "'" * 3])
+            iq = "'" if q[0] == '"' else '"'
+            ws = lambda: self.pick(["", "  ", "    ", "      ", "\t" if self.on("m_raw_tab") else " "])
+            body = [ws() + self.pick(["first {1 + 1}", "plain", "{3:>4}|", "# not a comment {2}"]) for _ in range(self.n(3))]
+            body.insert(self.n(len(body) + 1), ws() + "{f" + iq + "{2:>3}=x" + iq + "} third")
+            body.append(ws() + "last" + q)
+            self.feats.add("multiline-fstring-nested")
+            return [("code", "f" + q + "begin")] + [("str", b) for b in body]
         return [("code", str(self.n(100)))]
 
     def assign(self, level):
